@@ -184,6 +184,8 @@ struct VT
     {
         if constexpr (std::is_floating_point_v<T>)
             return d == 1 ? T(0.0) : (d == 2 ? -T(0.0) : T(d));
+        else if constexpr (std::is_integral_v<T> && std::is_signed_v<T>)
+            return d == 3 ? static_cast<T>(-1) : static_cast<T>(d);   // value order differs from byte order
         else
             return static_cast<T>(d);
     }
